@@ -223,9 +223,17 @@ func decBinary(w *wtype, b []byte) (out reflect.Value, err error, pi *panicInfo)
 			out, err = w.decBin(b)
 			return
 		}
-		p := reflect.New(w.rt)
 		var n int
-		wire.ReadBinaryPtr(p.Interface(), bytes.NewReader(b), 0, &n, &err)
+		if w.rt.Name() == "" { // anonymous wrapper struct: by value, as the reactors' DecodeMessage do
+			out = reflect.New(w.rt).Elem()
+			out.Set(reflect.ValueOf(wire.ReadBinary(reflect.Zero(w.rt).Interface(), bytes.NewReader(b), 2*len(b)+64, &n, &err)))
+			return
+		}
+		p := reflect.New(w.rt)
+		// as the real call sites do: wire.ReadBinary(&T{}, r, limit, &n, &err). The limit is a
+		// generous multiple of the encoding's size (never 0: a mis-decoded length must not
+		// take the checking process down).
+		wire.ReadBinary(p.Interface(), bytes.NewReader(b), 2*len(b)+64, &n, &err)
 		out = p.Elem()
 	})
 	return
